@@ -137,6 +137,9 @@ type Property struct {
 	// PerProcess: one run per OS process (command-level families: option parsing writes
 	// package globals).
 	PerProcess bool
+	// JobTimeoutSec: watchdog of one worker job when the family has runs that take minutes
+	// (0: the driver's default).
+	JobTimeoutSec int
 	// Enum returns the number of enumerated (exhaustive sub-space) cases of the tier and the
 	// plan-tape prefix of case i.  nil: no enumerated part.
 	Enum func(tier string) int
@@ -350,7 +353,7 @@ func WorkerMain(t *testing.T) {
 			ids = append(ids, id)
 		}
 		sort.Strings(ids)
-		info := map[string]any{"prop": p.ID, "per_process": p.PerProcess, "enum": 0, "random": p.Random(job.Tier),
+		info := map[string]any{"prop": p.ID, "per_process": p.PerProcess, "job_timeout": p.JobTimeoutSec, "enum": 0, "random": p.Random(job.Tier),
 			"real": p.Real, "stub": p.Stub, "rule": p.Rule, "level": p.Level, "all": ids}
 		if p.Enum != nil {
 			info["enum"] = p.Enum(job.Tier)
